@@ -367,9 +367,11 @@ class Driver:
 def load_known(prop: str):
     """returns {id: text} of `open:` findings for prop"""
     res = {}
-    if not os.path.exists(KNOWN_FILE):
-        return res
-    for line in open(KNOWN_FILE):
+    lines = []
+    for fn in [KNOWN_FILE] + sorted(glob.glob(os.path.join(VERIF, "known", "*.txt"))):
+        if os.path.exists(fn):
+            lines += open(fn).read().splitlines()
+    for line in lines:
         line = line.strip()
         if not line or line.startswith("#"):
             continue
